@@ -326,6 +326,14 @@ let dispatch (w : string list) : string =
       | Inr pk ->
           let prf = if pr = "-" then None else (match proof_from_bincode (bytes_of_hex pr) with Inr p -> Some p | Inl _ -> failwith "bad proof in case line") in
           if pp_client_verify grp pk (bytes_of_hex inp) (bytes_of_hex outp) prf (n_of_int (int_of_string md)) then "true" else "false")
+  | [ "json.ev"; b ] -> (
+      match json_evaluation_decode (bytes_of_hex b) with
+      | Some (o, pr) -> "ok " ^ hex_of_bytes o ^ " " ^ proof_hex pr ^ " " ^ hex_of_bytes (json_evaluation o pr)
+      | None -> "err")
+  | [ "json.pt"; b ] -> (
+      match json_point_decode (bytes_of_hex b) with
+      | Some o -> "ok " ^ hex_of_bytes o ^ " " ^ hex_of_bytes (json_array o)
+      | None -> "err")
   | [ "pk.load"; b ] -> ( match pk_from_bincode (bytes_of_hex b) with Inr pk -> "ok " ^ hex_of_bytes (pk_to_bincode pk) | Inl e -> "E:" ^ perr_name e)
   | [ "proof.load"; b ] -> ( match proof_from_bincode (bytes_of_hex b) with Inr p -> "ok " ^ hex_of_bytes (proof_to_bincode p) | Inl e -> "E:" ^ perr_name e)
   | "ggm.run" :: k0 :: k1 :: s0 :: s1 :: ops ->
